@@ -22,59 +22,96 @@ META = {
 OUTPUTS = ("std::io::stdio::_print", "std::fs::write", "rmcp::model::CallToolResult::success")
 
 
+def _exceeds_test(cond):
+    """cond is a comparison of a sale amount with a holding -> (amount term, holding term, edge on which amount > holding:
+    'true' | 'false', strict?) or None. `amount > held` / `held < amount` err on the true edge; `amount <= held` /
+    `held >= amount` err on the false edge; the other four spellings refuse an exactly covered sale (not strict)."""
+    if not (isinstance(cond, tuple) and cond and cond[0] == "cmp" and cond[1] in ("Gt", "Lt", "Ge", "Le")):
+        return None
+    op, x, y = cond[1], cond[2], cond[3]
+    if show(x).endswith("as Sell).amount"):
+        amt, held = x, y
+    elif show(y).endswith("as Sell).amount"):
+        amt, held = y, x
+        op = {"Gt": "Lt", "Lt": "Gt", "Ge": "Le", "Le": "Ge"}[op]
+    else:
+        return None
+    # now: amt OP held
+    return {"Gt": (amt, held, "true", True), "Le": (amt, held, "false", True),
+            "Ge": (amt, held, "true", False), "Lt": (amt, held, "false", False)}[op]
+
+
 def holding_guard(R, rep):
+    """The guard may sit in the cascade itself or in a helper the cascade calls first and whose error it propagates (`?`);
+    in both cases it is evaluated in the cascade's terms."""
+    from mir import subst, expand_closures
     c = R.require("cascade")
-    tb = R.terms(c, 1)
     legs = {r: R.leg(r)[0].id for r in RULES}
     sites = {r: [i for i, t in c.calls() if t["callee"] == legs[r]] for r in RULES}
+    ctb = R.terms(c, 2)
+    contexts = [(c, R.terms(c, 1), (lambda t: t), None)]
+    for i, t in c.calls():
+        hb = R.F.bodies.get(t["callee"])
+        if hb is not None and hb.id not in legs.values() and hb.crate == c.crate and "Result" in hb.ret and P.user_written(R.F, hb) and hb.kind in ("fn", "method"):
+            args = [ctb.operand(a) for a in t["args"]]
+            contexts.append((hb, R.terms(hb, 1), (lambda term, A=args: subst(term, A)), (i, t)))
     guard = None
-    for s in c.reachable():
-        sw = c.term(s)
-        if sw["k"] != "switch":
-            continue
-        cond = tb.operand(sw["discr"])
-        if not (isinstance(cond, tuple) and cond[0] == "cmp" and cond[1] in ("Gt", "Lt", "Ge", "Le")):
-            continue
-        lhs, rhs = cond[2], cond[3]
-        if cond[1] in ("Lt", "Le"):
-            lhs, rhs = rhs, lhs
-        if not (show(lhs).endswith("as Sell).amount")):
-            continue
-        txt = show(rhs, 0)
-        if "quantity" in txt or "remaining_for_date" in txt or "available" in txt or "+" in txt:
-            guard = (s, sw, cond, lhs, rhs)
+    for gb, gtb, conv, call in contexts:
+        for s in gb.reachable():
+            sw = gb.term(s)
+            if sw["k"] != "switch":
+                continue
+            ex = _exceeds_test(conv(gtb.operand(sw["discr"])))
+            if ex is None:
+                continue
+            txt = show(ex[1], 0)
+            if "quantity" in txt or "remaining_for_date" in txt or "available" in txt or "+" in txt:
+                guard = (gb, s, sw, ex, call)
+                break
+        if guard:
             break
     if guard is None:
         rep.ob("R1", "cascade:holding-guard", False, "no `sale amount > holding → Err` test found in the sell cascade: any sale is matched without checking that the shares are held",
                c.loc(), key="R1:cascade:guard-missing")
         return None
-    s, sw, cond, lhs, rhs = guard
+    gb, s, sw, (lhs, rhs, err_edge, strict), call = guard
     true_t = sw["otherwise"]
     false_t = [x for v, x in sw["targets"] if v == "0"][0]
-    err_arm = {x for x in c.reach_from(true_t) if c.dominates(true_t, x)}
-    returns_err = any(st["rv"]["k"] == "agg" and st["rv"].get("variant") == "Err" for x in err_arm for st in c.stmts(x) if "rv" in st)
-    strict = cond[1] in ("Gt", "Lt")
-    rep.ob("R1", "guard:exceeds→Err", returns_err and strict, "a sale exceeding the holding returns Err (a sale equal to it passes)" if returns_err and strict else
-           f"guard is `{cond[1]}` and its true edge {'returns Err' if returns_err else 'does not return Err'}: covered sales may be refused or uncovered ones accepted",
-           c.loc(sw["sp"]), key="R1:guard:shape")
+    err_t, pass_t = (true_t, false_t) if err_edge == "true" else (false_t, true_t)
+    err_arm = {x for x in gb.reach_from(err_t) if gb.dominates(err_t, x)}
+    returns_err = any(st["rv"]["k"] == "agg" and st["rv"].get("variant") == "Err" for x in err_arm for st in gb.stmts(x) if "rv" in st)
+    pass_clean = True
+    if gb is not c:
+        # in a helper the passing edge must not build an Err either
+        pass_arm = {x for x in gb.reach_from(pass_t) if gb.dominates(pass_t, x)}
+        pass_clean = not any(st["rv"]["k"] == "agg" and st["rv"].get("variant") == "Err" for x in pass_arm for st in gb.stmts(x) if "rv" in st)
+    rep.ob("R1", "guard:exceeds→Err", returns_err and strict and pass_clean, "a sale exceeding the holding returns Err (a sale equal to it passes)" if returns_err and strict and pass_clean else
+           f"guard refuses on `amount {'>' if strict else '>='} holding` and that edge {'returns Err' if returns_err else 'does not return Err'}: covered sales may be refused or uncovered ones accepted",
+           gb.loc(sw["sp"]), key="R1:guard:shape")
     for r in RULES:
         for i in sites[r]:
-            ok = c.edge_dominates((s, false_t), i)
+            if gb is c:
+                ok = c.edge_dominates((s, pass_t), i)
+            else:
+                ci, ct = call
+                ok = c.dominates(ci, i) and _break_arm_misses(c, ctb, ci, ct, i)
             rep.ob("R1", f"guard≺{r}", ok, f"{r} matching runs only after the holding check passed" if ok else
                    f"{r} matching is reachable without passing the holding check", c.loc(), key=f"R1:guard-dominates:{r}")
     # operands (closures passed to Option::map are expanded so that the data they read is visible)
-    from mir import expand_closures
     rhs = expand_closures(R.F, rhs)
-    txt = show(rhs, 0)
     parts = rhs[1] if isinstance(rhs, tuple) and rhs[0] == "+" else [rhs]
+    # the sale transaction: T with lhs = (T.operation as Sell).amount
+    sale = None
+    for x in subterms(lhs):
+        if isinstance(x, tuple) and len(x) == 3 and x[0] == "field" and x[2] == "operation":
+            sale = x[1]
 
     def fields(t):
         return {x[2] for x in subterms(t) if isinstance(x, tuple) and len(x) == 3 and x[0] == "field" and isinstance(x[2], str)}
 
     def tx_field(t, name):
-        """a read of <sale transaction parameter>.<name>"""
-        return any(isinstance(x, tuple) and len(x) == 3 and x[0] == "field" and x[2] == name and isinstance(x[1], tuple) and x[1]
-                   and x[1][0] == "param" and "GbpTransaction" in c.local_ty(x[1][1] + 1) for x in subterms(t))
+        """a read of <the sale transaction>.<name>"""
+        return any(isinstance(x, tuple) and len(x) == 3 and x[0] == "field" and x[2] == name and x[1] == sale for x in subterms(t))
     led = [p for p in parts if "ledgers" in fields(p)]
     pool = [p for p in parts if "pools" in fields(p)]
     ok_l = len(led) == 1 and tx_field(led[0], "ticker") and tx_field(led[0], "date") and \
@@ -82,12 +119,24 @@ def holding_guard(R, rep):
     ok_p = len(pool) == 1 and tx_field(pool[0], "ticker") and "quantity" in fields(pool[0])
     rep.ob("R1", "guard:same-day-lots-of-own-date-and-ticker", ok_l,
            "holding includes the unmatched lots of the sale's own date and ticker" if ok_l else f"ledger part of the holding is {[show(x)[:80] for x in led]}",
-           c.loc(sw["sp"]), key="R1:guard:ledger-operand")
+           gb.loc(sw["sp"]), key="R1:guard:ledger-operand")
     rep.ob("R1", "guard:pool-of-own-ticker", ok_p, "holding includes the pool quantity of the sale's own ticker" if ok_p else
-           f"pool part of the holding is {[show(x)[:80] for x in pool]}", c.loc(sw["sp"]), key="R1:guard:pool-operand")
+           f"pool part of the holding is {[show(x)[:80] for x in pool]}", gb.loc(sw["sp"]), key="R1:guard:pool-operand")
     rep.ob("R1", "guard:nothing-else-counts", len(parts) == 2, "holding = same-day lots + pool, nothing else" if len(parts) == 2 else
-           f"holding sums {len(parts)} terms: {[show(x)[:40] for x in parts]}", c.loc(sw["sp"]), key="R1:guard:extra-terms")
+           f"holding sums {len(parts)} terms: {[show(x)[:40] for x in parts]}", gb.loc(sw["sp"]), key="R1:guard:extra-terms")
     return guard
+
+
+def _break_arm_misses(c, ctb, ci, ct, site):
+    """the error of the helper called at block ci is propagated: the Break arm of the `?` on its result cannot reach `site`"""
+    for s2 in c.reach_from(ct["target"]) if ct.get("target") is not None else ():
+        sw2 = c.term(s2)
+        if sw2["k"] == "switch" and c.dominates(ci, s2):
+            c2 = Terms(ctb.facts, c, inline_depth=0).operand(sw2["discr"])
+            if isinstance(c2, tuple) and c2 and c2[0] == "discr" and any(isinstance(x, tuple) and x and x[0] == "call" and x[1] == ct["callee"] for x in subterms(c2)):
+                brk = [x for v, x in sw2["targets"] if v == "1"]
+                return bool(brk) and site not in c.reach_from(brk[0]) and c.dominates(s2, site)
+    return False
 
 
 def guard_reads_vs_leg_writes(R, rep):
@@ -194,8 +243,12 @@ def error_texts(R, rep):
         sw = c.term(s)
         if sw["k"] == "switch":
             cond = tb.operand(sw["discr"])
-            if isinstance(cond, tuple) and cond[0] == "cmp" and cond[1] == "Gt" and cond[3] == ("const", "Decimal::ZERO"):
-                arm = {x for x in c.reach_from(sw["otherwise"]) if c.dominates(sw["otherwise"], x)}
+            if isinstance(cond, tuple) and cond[0] == "cmp" and cond[1] in ("Gt", "Le") and cond[3] == ("const", "Decimal::ZERO"):
+                # `remaining > 0` errs on the true edge, `remaining <= 0` on the false edge
+                et = sw["otherwise"] if cond[1] == "Gt" else ([x for v, x in sw["targets"] if v == "0"] or [None])[0]
+                if et is None:
+                    continue
+                arm = {x for x in c.reach_from(et) if c.dominates(et, x)}
                 if any(st["rv"]["k"] == "agg" and st["rv"].get("variant") == "Err" for x in arm for st in c.stmts(x) if "rv" in st) and \
                         not any(c.term(x)["k"] == "call" and c.term(x)["callee"] in {R.leg(r)[0].id for r in RULES} for x in arm):
                     rem_err = True
